@@ -1,2 +1,77 @@
-Theorem C13_placeholder : True. Proof. exact I. Qed.
-Print Assumptions C13_placeholder.
+(* C13 — any sequence of simulator API calls behaves like the documented machine.
+   Codec.api_call is the literal model of one API call as the harness drives it
+   (None = panic, or Run still looping when the fuel cycles+2 is exhausted);
+   ApiSpec / Mars is the documented machine; Rel ties model states to it. *)
+From GM Require Import Base Exec Sim Codec Emi94 Mars ApiSpec InvSim C02Proof C13Proof.
+Open Scope N_scope.
+
+(* no call sequence — any indexes, any offsets, any order — panics or hangs *)
+Theorem C13_no_panic_no_hang :
+  forall ds ops s, Inv s -> aop_wf (s_m s) ds ->
+    exists s', api_states ds s ops = Some s' /\ Inv s'.
+Proof. exact api_never_panics. Qed.
+Print Assumptions C13_no_panic_no_hang.
+
+(* RunCycle: one reference cycle when the battle can be stepped; otherwise
+   (finished, empty or never-started battle) it returns 0 and changes nothing *)
+Theorem C13_run_cycle_refines_spec :
+  forall s t, Inv s -> guards s -> Rel s t ->
+  match run_cycle s with
+  | Panic => False
+  | Ok (s', r, _) =>
+    if a_can_run (cfg_of s) t then
+      let t' := m_cycle (cfg_of s) t in
+      Rel s' t' /\ Inv s' /\ cfg_of s' = cfg_of s /\
+      r = (if m_cycles t' =? m_cycles t then 1%Z else Z.of_nat (m_living t'))
+    else s' = s /\ r = 0%Z
+  end.
+Proof. exact run_cycle_refines. Qed.
+Print Assumptions C13_run_cycle_refines_spec.
+
+(* Run: the reference run-to-completion, the alive flags as result *)
+Theorem C13_run_refines_spec :
+  forall s t, Inv s -> guards s -> Rel s t -> s_ws s <> [] ->
+  forall fuel, (N.to_nat (s_cycles s - s_cycle s) < fuel)%nat ->
+  match run fuel s with
+  | RunOk s' (Some flags) =>
+      Rel s' (m_until_done (cfg_of s) fuel t) /\ Inv s' /\ flags = map alive (s_ws s')
+  | _ => False
+  end.
+Proof. exact run_refines. Qed.
+Print Assumptions C13_run_refines_spec.
+
+(* SpawnWarrior: refused exactly for an unknown index or a running warrior, else the reference spawn *)
+Theorem C13_spawn_refines_spec :
+  forall s t wi off, Inv s -> guards s -> Rel s t -> off < two64 ->
+  Forall (fun w => (0 <= w_start w)%Z /\
+                   Z.to_N (w_start w) + N.of_nat (length (w_code w)) + 2 * s_m s < two64) (s_ws s) ->
+  match spawn_warrior s wi off with
+  | Panic => False
+  | Ok (inr _) =>
+      (wi < 0)%Z \/ (Z.of_nat (length (s_ws s)) <= wi)%Z \/
+      exists w, nth_error (m_ws t) (Z.to_nat wi) = Some w /\ m_alive w = true
+  | Ok (inl (s', _)) =>
+      (0 <= wi)%Z /\
+      exists t', m_spawn (cfg_of s) t (Z.to_nat wi) off = Some t' /\ Rel s' t' /\ Inv s' /\
+                 cfg_of s' = cfg_of s
+  end.
+Proof. exact spawn_refines. Qed.
+Print Assumptions C13_spawn_refines_spec.
+
+(* Reset yields the state of a fresh simulator holding the same (not started) warriors *)
+Theorem C13_reset_fresh :
+  forall s t, Rel s t ->
+  Rel (fst (reset s))
+      (mkM empty_core (map (fun w => mkMW (mw_code w) (mw_start w) MAdded []) (m_ws t)) 0)
+  /\ (forall c s0, new_sim c = Some s0 -> Rel s0 (mkM empty_core [] 0)).
+Proof. exact reset_is_fresh. Qed.
+Print Assumptions C13_reset_fresh.
+
+(* AddWarrior and GetMem *)
+Theorem C13_add_getmem :
+  (forall s t code start, Rel s t ->
+     Rel (add_warrior s code start)
+         (mkM (m_core t) (m_ws t ++ [mkMW code start MAdded []]) (m_cycles t))) /\
+  (forall s t a, Inv s -> Rel s t -> get_mem s a = get (m_core t) (a mod s_m s)).
+Proof. split; [exact add_refines|exact get_mem_refines]. Qed.
+Print Assumptions C13_add_getmem.
